@@ -288,8 +288,19 @@ func (e editor) list(from *Selection, to *Selection, m *meta.List, new bool, str
 		p.Key = key
 		if len(key) > 0 {
 			toRequest.New = false
-			if toChild, _, _, err = to.selectListItem(&toRequest); err != nil {
+			var visible bool
+			if toChild, visible, _, err = to.selectListItem(&toRequest); err != nil {
 				return err
+			}
+			if toChild != nil && !visible {
+				// existing item is hidden by a constraint (e.g. its 'when' is false), it is not edited
+				releaseToChild()
+				releaseFromChild()
+				fromRequest.IncrementRow()
+				if fromChild, key, err = from.selectVisibleListItem(fromRequest); err != nil {
+					return err
+				}
+				continue
 			}
 		}
 		toRequest.New = true
